@@ -90,6 +90,12 @@ def check(ctx):
                                         "environment defaults are not all set before numba-using modules are imported (they are read at import time)", f"speckit/__init__.py:{last_env or 0}")
     from ..effects import check_no_shared_module_state
     check_no_shared_module_state(ctx, rule="R9-instance-state-not-shared")
+    from ..table import check_cells_history_independent
+    check_cells_history_independent(ctx, rule="R12-attribute-independent-of-access-order")
+    from ..race import check_thread_count_independent
+    check_thread_count_independent(ctx)
+    from ..effects import check_no_global_memo
+    check_no_global_memo(ctx, rule="R10-no-global-memo")
     ctx.trust("numba prange semantics (iterations may run concurrently; scalar '+=' is a reduction with unspecified order)", "E7 aliasing rows")
     ctx.assume("BLAS-internal threading of the NumPy fallback is not analysed")
     return ("Every prange loop (6) and CUDA kernel (6) is checked: array stores only into the iteration's own slot, no loop-carried scalar or reduction "
